@@ -18,15 +18,15 @@ type hdrCase struct {
 
 // Classes of a raw buffer as seen by the reference.
 const (
-	hcShort        = iota // buffer shorter than a header
-	hcLowShort            // number < 0x4000 (STUN-looking), declared > available
-	hcLowFits             // number < 0x4000, declared <= available
-	hcHighShort           // number > 0x7FFF, declared > available
-	hcHighFits            // number > 0x7FFF, declared <= available
-	hcValidShort          // valid number, declared > available            -> invalid
-	hcValidExact          // valid number, declared == available           -> valid
-	hcValidPadded         // valid number, available == pad4(declared) > declared -> valid
-	hcValidTrailing       // valid number, other declared < available      -> valid
+	hcShort         = iota // buffer shorter than a header
+	hcLowShort             // number < 0x4000 (STUN-looking), declared > available
+	hcLowFits              // number < 0x4000, declared <= available
+	hcHighShort            // number > 0x7FFF, declared > available
+	hcHighFits             // number > 0x7FFF, declared <= available
+	hcValidShort           // valid number, declared > available            -> invalid
+	hcValidExact           // valid number, declared == available           -> valid
+	hcValidPadded          // valid number, available == pad4(declared) > declared -> valid
+	hcValidTrailing        // valid number, other declared < available      -> valid
 	hcN
 )
 
@@ -40,6 +40,17 @@ var hcNames = [hcN]string{
 	"number-valid,declared==available",
 	"number-valid,available==pad4(declared)",
 	"number-valid,declared<available(trailing)",
+}
+
+var sigDecAccepts, sigDecRejects, sigIsTrue, sigIsFalse [hcN]string
+
+func init() {
+	for i, n := range hcNames {
+		sigDecAccepts[i] = "chandata-decode:accepts-invalid:" + n
+		sigDecRejects[i] = "chandata-decode:rejects-valid:" + n
+		sigIsTrue[i] = "ischanneldata:true-for-invalid:" + n
+		sigIsFalse[i] = "ischanneldata:false-for-valid:" + n
+	}
 }
 
 func hdrClass(num, declared, actual int) int {
@@ -99,10 +110,11 @@ type hdrChecker struct {
 	cls  [hcN]int64
 	eval int64
 	lens [65536][]int32
+	g    gate
 }
 
 func newHdrChecker(r *rep.Report) *hdrChecker {
-	h := &hdrChecker{r: r, big: make([]byte, bigLen)}
+	h := &hdrChecker{r: r, big: make([]byte, bigLen), g: gate{}}
 	backing := make([]int32, 0, 65536*10)
 	var tmp [10]int32
 	for d := range h.lens {
@@ -114,7 +126,13 @@ func newHdrChecker(r *rep.Report) *hdrChecker {
 	return h
 }
 
-func (h *hdrChecker) violate(sig, detail string) {
+func (h *hdrChecker) violate(sig, format string, args ...any) {
+	if h.g.full(sig) {
+		h.r.Violate(rep.Violation{Signature: sig})
+
+		return
+	}
+	detail := fmt.Sprintf(format, args...)
 	h.r.Violate(rep.Violation{
 		Oracle:    "RFC 5766 §11.4-11.6: valid <=> len>=4, 0x4000<=number<=0x7FFF, declared <= len-4; data == buf[4:4+declared]",
 		Signature: sig,
@@ -135,6 +153,9 @@ func (h *hdrChecker) header(num, d int) {
 		h.eval++
 		refNum, refData, refOK := refChannelData(buf)
 		h.cls[hdrClass(num, d, l)]++
+		if h.cls[hdrClass(num, d, l)] == 1 && l >= 4 {
+			h.r.Sample(map[string]any{"case": h.cur, "class": hcNames[hdrClass(num, d, l)], "reference_valid": refOK})
+		}
 
 		h.cd.Raw = buf
 		h.cd.Data = nil
@@ -145,26 +166,26 @@ func (h *hdrChecker) header(num, d int) {
 
 		if (err == nil) != refOK {
 			if err == nil {
-				h.violate("chandata-decode:accepts-invalid:"+hcNames[hdrClass(num, d, l)], "Decode returned nil, the reference rejects")
+				h.violate(sigDecAccepts[hdrClass(num, d, l)], "Decode returned nil, the reference rejects")
 			} else {
-				h.violate("chandata-decode:rejects-valid:"+hcNames[hdrClass(num, d, l)], "Decode returned "+err.Error()+", the reference accepts")
+				h.violate(sigDecRejects[hdrClass(num, d, l)], "Decode returned %v, the reference accepts", err)
 			}
 		} else if refOK {
 			if uint16(h.cd.Number) != refNum {
-				h.violate("chandata-decode:number-mismatch", fmt.Sprintf("Number=0x%04x", uint16(h.cd.Number)))
+				h.violate("chandata-decode:number-mismatch", "Number=0x%04x", uint16(h.cd.Number))
 			}
 			if len(h.cd.Data) != len(refData) || (len(refData) > 0 && &h.cd.Data[0] != &refData[0]) {
-				h.violate("chandata-decode:data-mismatch", fmt.Sprintf("Data has %d bytes, want exactly buf[4:%d]", len(h.cd.Data), 4+d))
+				h.violate("chandata-decode:data-mismatch", "Data has %d bytes, want exactly buf[4:%d]", len(h.cd.Data), 4+d)
 			}
 			if h.cd.Length != d {
-				h.violate("chandata-decode:length-mismatch", fmt.Sprintf("Length=%d", h.cd.Length))
+				h.violate("chandata-decode:length-mismatch", "Length=%d", h.cd.Length)
 			}
 		}
 		if is != refOK {
 			if is {
-				h.violate("ischanneldata:true-for-invalid:"+hcNames[hdrClass(num, d, l)], "IsChannelData=true, the reference rejects")
+				h.violate(sigIsTrue[hdrClass(num, d, l)], "IsChannelData=true, the reference rejects")
 			} else {
-				h.violate("ischanneldata:false-for-valid:"+hcNames[hdrClass(num, d, l)], "IsChannelData=false, the reference accepts")
+				h.violate(sigIsFalse[hdrClass(num, d, l)], "IsChannelData=false, the reference accepts")
 			}
 		}
 	}
